@@ -13,5 +13,5 @@ s=re.sub(old,new,s,count=1)
 open(f,'w').write(s)
 PY
 git -C /repo diff --stat | tail -1
-for c in "$@"; do (cd /verif && bin/check $c --tier ${TIER:-quick} 2>&1 | grep -E "^(VIOLATION|HARNESS|C[0-9]+ tier|KNOWN)" | cut -c1-260 | awk 'NR<=4 || /tier=/'); done
+for c in "$@"; do (cd /verif && KV_EVIDENCE_DIR=/dev/shm/ev_mut KV_REPLAY_DIR=/dev/shm/rp_mut bin/check $c --tier ${TIER:-quick} 2>&1 | grep -E "^(VIOLATION|HARNESS|C[0-9]+ tier|KNOWN)" | cut -c1-260 | awk 'NR<=4 || /tier=/'); done
 git -C /repo checkout -- . 
